@@ -320,7 +320,39 @@ class HashTableGen:
                 emit(self._add(k, pick_val(rng)))
             ops += ["observe", "destroy"]
             out.append(ops)
+        if tier != "quick":
+            out.append(self.bulk_history(rng))
         return out
+
+    def bulk_history(self, rng, n=60000):
+        """thorough tier only: 60000 keys from the default capacity through every rehash up to 131072 buckets
+        (`model=off`: too large for the list-based Lean models - they answer `M ?`; the ideal map's answers come from a
+        hash map in the driver, the shim's walkers and its content sweep run on `observe`), 200 probes, a full
+        iterator sweep, content at the end"""
+        h = rng.choice(["mul", "id", "lib_ptr"])
+        stride = rng.choice([7, 11, 13])
+        base = rng.randint(1, 40)
+        keys = [base + stride * j for j in range(n)]
+        rng.shuffle(keys)
+        ops = [f"new cap=16 lf=0.75 hash={h} obs=sparse phys=sum model=off"]
+        for j, k in enumerate(keys):
+            ops.append(self._add(k, j % 97 + 1))
+        ops.append(self._add(0, 5))
+        live = set(keys) | {0}
+        for _ in range(200):
+            r = rng.random()
+            k = rng.choice(keys) if rng.random() < 0.85 else base + stride * n + rng.randint(1, 999)
+            if r < 0.4:
+                ops.append(self._contains(k) if self.is_set else f"get {k}")
+            elif r < 0.7:
+                ops.append(self._contains(k))
+            else:
+                ops.append(f"remove {k}")
+                live.discard(k)
+        ops.append("it_new")
+        ops += ["it_next"] * (len(live) + 2)
+        ops += ["observe", "destroy"]
+        return ops
 
     # ---------------------------------------------------------------- random
     def random(self, rng, n, tier, focus=None):
